@@ -378,7 +378,8 @@ let explore_cases (cls : char) (cases : case list) (oc : out_channel) (limit : i
         | Some KConSeveral -> "connect-observed-by-several-calls"
         | Some KConSamePair -> "connect-connect-same-pair-order"
         | Some KUndirSelfLoop -> "undirected-self-loop-connect-half-visible"
-        | Some KUndirIterShift -> "undirected-iteration-shifted-by-connect") in
+        | Some KUndirIterShift -> "undirected-iteration-shifted-by-connect"
+        | Some KConCycle -> "connect-cycle-of-list-orders") in
       Printf.fprintf oc "# %s: %d schedules class=%s\n" c.name n cls_name
     end) cases
 
